@@ -24,9 +24,9 @@ def apply_edits(w, edits):
     return s
 
 
-def repair_case_parts(rows, v0, k, s, vt, indel, heap, budget=None):
+def repair_case_parts(rows, v0, k, s, vt, indel, heap, budget=None, no_call=False):
     """returns (call, impl) for one repair_dna invocation; heap is the Python value handed to repair_dna"""
-    call = enc_call(24, s2c(s), gen.enc_acc(rows), v0, k, gen.enc_opt_str(vt), int(indel), math.floor(heap))
+    call = None if no_call else enc_call(24, s2c(s), gen.enc_acc(rows), v0, k, gen.enc_opt_str(vt), int(indel), math.floor(heap))
 
     def run():
         a = gen.counting(rows, budget if budget is not None else 1 << 60)
